@@ -67,7 +67,10 @@ def multitarget_rule(build_inputs, buildfile, targets, deps=None,
     if len(targets) > 1:
         first = targets[0]
         primary = _get_path(first).addext('.stamp')
-        buildfile.rule(target=targets, deps=[primary])
+        # Give this rule an (empty) recipe. Without one, make assumes the
+        # targets weren't changed by updating the stamp file, so anything
+        # depending on them wouldn't be rebuilt until the *next* invocation.
+        buildfile.rule(target=targets, deps=[primary], recipe=[Silent(':')])
         recipe = listify(recipe) + [Silent([ 'touch', qvar('@') ])]
         if clean_stamp:
             build_inputs.add_target(file_types.File(primary))
